@@ -402,39 +402,46 @@ Section Config.
         end
     end.
 
+  (* parseCommandLine after the command has been looked up: c = pprofCommands[name] (hasParam) *)
+  Definition pcl_body (name : string) (args : list string) (c : option bool) (cfg : config)
+    : outcome (list string * config) :=
+    match c with
+    | None => Err       (* "did you mean" or "unrecognized command" *)
+    | Some hp =>
+        bind (if hp then match args with [] => Err | a :: r => Ok ([name; a], r) end
+              else Ok ([name], args))
+             (fun ca =>
+        bind (pcl_args (snd ca) cfg "" "") (fun r =>
+          let vcopy := fst (fst r) in
+          let focus := snd (fst r) in
+          let ignore := snd r in
+          let vcopy :=
+            if String.eqb name "tags" then
+              let v := if String.eqb focus "" then vcopy else assign vcopy "tagfocus" (TS focus) in
+              if String.eqb ignore "" then v else assign v "tagignore" (TS ignore)
+            else
+              let v := if String.eqb focus "" then vcopy else assign vcopy "focus" (TS focus) in
+              if String.eqb ignore "" then v else assign v "ignore" (TS ignore) in
+          let vcopy :=
+            if term_eqb (field_value vcopy "nodecount") (TZ (-1)) && (String.eqb name "text" || String.eqb name "top")
+            then assign vcopy "nodecount" (TZ 10) else vcopy in
+          Ok (fst ca, vcopy)))
+    end.
+
   (* parseCommandLine(input) with currentConfig() = cfg *)
   Definition parse_command_line (input : list string) (cfg : config) : outcome (list string * config) :=
     match input with
     | [] => Panic "slice bounds out of range: input[:1] of no tokens"
     | name0 :: args0 =>
-        let '(name, args, c) :=
-          match find_cmd cmds name0 with
-          | Some hp => (name0, args0, Some hp)
-          | None =>
-              let d := tail_digits name0 in
-              if negb (String.eqb d "") && negb (String.eqb d name0) then
-                let name := take (String.length name0 - String.length d) name0 in
-                (name, d :: args0, find_cmd cmds name)
-              else (name0, args0, None)
-          end in
-        match c with
-        | None => Err       (* "did you mean" or "unrecognized command" *)
-        | Some hp =>
-            bind (if hp then match args with [] => Err | a :: r => Ok ([name; a], r) end
-                  else Ok ([name], args))
-                 (fun '(cmd, args) =>
-            bind (pcl_args args cfg "" "") (fun '(vcopy, focus, ignore) =>
-              let vcopy :=
-                if String.eqb name "tags" then
-                  let v := if String.eqb focus "" then vcopy else assign vcopy "tagfocus" (TS focus) in
-                  if String.eqb ignore "" then v else assign v "tagignore" (TS ignore)
-                else
-                  let v := if String.eqb focus "" then vcopy else assign vcopy "focus" (TS focus) in
-                  if String.eqb ignore "" then v else assign v "ignore" (TS ignore) in
-              let vcopy :=
-                if term_eqb (field_value vcopy "nodecount") (TZ (-1)) && (String.eqb name "text" || String.eqb name "top")
-                then assign vcopy "nodecount" (TZ 10) else vcopy in
-              Ok (cmd, vcopy)))
+        match find_cmd cmds name0 with
+        | Some hp => pcl_body name0 args0 (Some hp) cfg
+        | None =>
+            (* attempt splitting digits on abbreviated commands (top10) *)
+            let d := tail_digits name0 in
+            if negb (String.eqb d "") && negb (String.eqb d name0) then
+              let name := take (String.length name0 - String.length d) name0 in
+              pcl_body name (d :: args0) (find_cmd cmds name) cfg
+            else pcl_body name0 args0 None cfg
         end
     end.
 
